@@ -248,6 +248,16 @@ func TestExecSharedFragments(t *testing.T) {
 	})
 }
 
+// TestExecDirectives: the same differential check over queries that carry @skip / @include
+// (literal and variable conditions, on fields, inline fragments, spreads and fragments typed
+// on the union): what is excluded is not resolved and not answered, in every mode.
+func TestExecDirectives(t *testing.T) {
+	rapid.Check(t, func(t *rapid.T) {
+		c, f := genCase(t, world.GenOpts{Directives: true, FragOnUnion: true})
+		run(t, "TestExecDirectives", c, f)
+	})
+}
+
 func defaultCombos(s *world.Spec) []Combo {
 	var out []Combo
 	for i, sc := range sched.Names {
